@@ -1,7 +1,10 @@
 import CV.Proofs.InvWait2Stale
 /-
-C06, second round, part 3: the excluded case is real.  A run of the model on which the caller of
-`yield call(bar(), timeout=0)` is resumed with the result AND, later, gets `TimeoutError`:
+C06, second round, part 3: the former counter-example run, as a regression.
+
+BEFORE the fix "stale waitEvent closures do nothing once the outcome is decided" this run of the model made the caller
+of `yield call(bar(), timeout=0)` get the result AND, later, `TimeoutError` (theorem `no_timeout_after_resume_witness`
+of the second round, which held up to that fix commit):
 
   one root component that is `running` but not `executing` (a manager driven by hand with `tick()`), handlers
   `foo` = generator `x = yield call(bar(), timeout=0); yield; yield; yield`, `bar` = `return 7`, and a handler of
@@ -9,9 +12,12 @@ C06, second round, part 3: the excluded case is real.  A run of the model on whi
   ticks: they dispatch `bar_done` (`_on_done` sets the flag, registers the resumption task and removes the tick
   handler) and run the task loop (the caller is resumed with 7) while the enclosing `_dispatcher` of the
   `generate_events` event still holds `[stop-handler, _on_tick, fallback]`.  Back in that loop the STALE `_on_tick`
-  finds the countdown at 0, registers the TimeoutError task, and the next tick throws it into the caller.
+  found the countdown at 0, registered the TimeoutError task, and the next tick threw it into the caller.
+  (Real code: a `generate_events` handler that calls `self.tick()`; harness/c06.py `stale_tick_cases`.)
 
-The same happens in the real code with a `generate_events` handler that calls `self.tick()` (see the report).
+NOW the same run (evaluated by the kernel) still reaches the stale invocation with the countdown at 0 - but `flag` is
+set, `_on_tick` returns at once, and the run ends with exactly one outcome: one `.resumed` entry, no `.timeout` entry,
+no `TimeoutError` carrier.
 
 `List.mergeSort` (well-founded recursion) does not reduce in the kernel, so the run is evaluated with `step2`,
 which is `step` with `computeHandlers` skipping the sort when the collected list is already sorted
@@ -183,9 +189,9 @@ def w6b_c3 (n : Nat) : Cfg := runN n (startOf (envChange w6b_c2.st 0 []) (.tick 
 def w6b_cR : Cfg := w6b_c3 59
 /-- 24 steps later: the stale `_on_tick` is about to be invoked with the countdown at 0 -/
 def w6b_cT : Cfg := runN 24 (step w6b_cR)
-/-- the tick runs to its end (12 more steps); in the next `tick()` step 9 throws `TimeoutError` into the caller -/
+/-- the tick runs to its end (12 more steps); the next `tick()` (10 steps) steps the caller once more -/
 def w6b_cE : Cfg := runN 12 w6b_cT
-def w6b_cX : Cfg := runN 9 (startOf (envChange w6b_cE.st 0 []) (.tick 0))
+def w6b_cX : Cfg := runN 10 (startOf (envChange w6b_cE.st 0 []) (.tick 0))
 
 /-- decidable form of `W6ResumesW c w` -/
 def w6b_isResume (c : Cfg) (w : Nat) : Bool :=
@@ -251,12 +257,6 @@ theorem w6b_isExcStep_spec (c : Cfg) (w : Nat) (h : w6b_isExcStep c w = true) :
     · cases h
   · cases h
 
-theorem w6b_hasStale_spec (c : Cfg) (w : Nat) (h : w6b_hasStale c w = true) : ¬ W6BNoStaleTick c w := by
-  intro hn
-  simp only [w6b_hasStale, List.any_eq_true, beq_iff_eq] at h
-  obtain ⟨x, hx, hk⟩ := h
-  exact (hn x hx).2 hk
-
 theorem w6b_later_runN {n0 : Nat} (c : Cfg) : ∀ n c0, W6Later n0 c0 c → W6Later n0 c0 (runN n c)
   | 0, _, h => h
   | n + 1, c0, h => by
@@ -281,20 +281,30 @@ theorem w6b_c2_done : done w6b_c2 = true := by
   unfold w6b_c2 w6b_c1; rw [← w6b_runN2_eq]; decide +kernel
 theorem w6b_cR_resume : w6b_isResume w6b_cR 0 = true := by
   unfold w6b_cR w6b_c3 w6b_c2 w6b_c1; rw [← w6b_runN2_eq]; decide +kernel
+/-- at the resumption step the enclosing `_dispatcher` still holds the tick handler of wait 0 -/
 theorem w6b_cR_stale : w6b_hasStale w6b_cR 0 = true := by
   unfold w6b_cR w6b_c3 w6b_c2 w6b_c1; rw [← w6b_runN2_eq]; decide +kernel
 theorem w6b_cT_tick0 : w6b_isTick0 w6b_cT 0 = true := by
   unfold w6b_cT w6b_cR w6b_c3 w6b_c2 w6b_c1; rw [← w6b_runN2_eq, ← w6b_step2_eq]; decide +kernel
+/-- ... but the flag is set: the invocation is stale and does nothing -/
+theorem w6b_cT_flag : (w6b_cT.st.wait 0).flag = true := by
+  unfold w6b_cT w6b_cR w6b_c3 w6b_c2 w6b_c1; rw [← w6b_runN2_eq, ← w6b_step2_eq]; decide +kernel
 theorem w6b_cE_done : done w6b_cE = true := by
   unfold w6b_cE w6b_cT w6b_cR w6b_c3 w6b_c2 w6b_c1; rw [← w6b_runN2_eq, ← w6b_step2_eq]; decide +kernel
-theorem w6b_cX_exc : w6b_isExcStep w6b_cX 0 = true := by
+theorem w6b_cX_done : done w6b_cX = true := by
   unfold w6b_cX w6b_cE w6b_cT w6b_cR w6b_c3 w6b_c2 w6b_c1; rw [← w6b_runN2_eq, ← w6b_step2_eq]; decide +kernel
 
 /-- the resumption step hands the result 7 of `bar` (event 1) to the caller (event 0, handler 0) ... -/
 theorem w6b_cR_logs : Entry.resumed 0 0 1 (.single (.val 7)) false ∈ (step w6b_cR).st.log := by
   unfold w6b_cR w6b_c3 w6b_c2 w6b_c1; rw [← w6b_runN2_eq, ← w6b_step2_eq]; decide +kernel
-/-- ... and the later task step throws `TimeoutError` into the same caller -/
-theorem w6b_cX_logs : Entry.timeout 0 0 false ∈ (step w6b_cX).st.log ∧ Entry.timeout 0 0 false ∉ w6b_cX.st.log := by
+
+/-- exactly one outcome: one `.resumed` / `.timeout` entry in the whole log, and it is the `.resumed` one; no
+    `TimeoutError` carrier was ever created -/
+def w6b_oneOutcome (c : Cfg) : Bool :=
+  (c.st.log.filter Entry.w6_isResume == [Entry.resumed 0 0 1 (.single (.val 7)) false]) &&
+    c.st.gens.all (fun g => !g.w6_isExc)
+
+theorem w6b_cX_one : w6b_oneOutcome w6b_cX = true := by
   unfold w6b_cX w6b_cE w6b_cT w6b_cR w6b_c3 w6b_c2 w6b_c1; rw [← w6b_runN2_eq, ← w6b_step2_eq]; decide +kernel
 
 theorem w6b_cR_reach : W6ReachW w6b_s0.hs.length w6b_s0 w6b_cR := by
